@@ -37,11 +37,27 @@ Example ex_hist_effects :
     (5%nat, EDial 2 (s_ "1.2.3.4:80")); (7%nat, EDial 1 (s_ "93.184.216.34:443")) ].
 Proof. vm_compute. reflexivity. Qed.
 
-(* the zone law holds for this name system (no zones) *)
-Example ex_names_zone : forall m, zone_law (resolve_with (ex_names m)).
+(* the name system of the example meets what the theorems ask of it ... *)
+Example ex_names_ok : forall m, names_ok (ex_names m).
 Proof.
-  intro m. apply zone_law_concrete. intros h a z. unfold ex_names.
-  destruct (bytes_eqb h (s_ "rebind.test")); [|discriminate]. now intros [= _ <-].
+  intros m h a z. unfold ex_names. destruct (bytes_eqb h (s_ "rebind.test")); [|discriminate].
+  destruct m; intros [= <- <-]; split; reflexivity.
+Qed.
+
+(* ... so the dial theorem applies to the history, and its conclusion speaks about a real dial of it *)
+Example ex_theorem_applies :
+  exists pre r ok post host port a z a',
+    hist = pre ++ IIngest r ok :: post /\ (length pre <= 7)%nat /\ g_key r = 1 /\
+    split_host_port (g_covert r) = Some (host, port) /\ port_ok port = true /\
+    dom_blocked ex_re (policy_after_i pol_block pre) host = false /\
+    resolve_with (ex_names (length pre)) host = Some (a, z) /\ valid_ip a = true /\ zoned_v4 a z = false /\
+    blocked (policy_after_i pol_block pre) a = false /\
+    s_ "93.184.216.34:443" = join_host_port (ip_text ip_str_c a z) port /\
+    dial_target ex_later (s_ "93.184.216.34:443") = Some (a', z, port) /\
+    norm a' = norm a /\ blocked (policy_after_i pol_block pre) a' = false.
+Proof.
+  apply (every_dial_checked_concrete ex_names (ex_names 7) ex_re pol_block hist 7%nat 1 (s_ "93.184.216.34:443") ex_names_ok).
+  vm_compute. auto 10.
 Qed.
 
 (* the admitted literal, dialled when the name has long been rebound, reaches the checked address and port *)
